@@ -54,7 +54,7 @@ def call(case, ctx, nopre=False):
     A = C.algos()
     prng = random.Random(case.get("pres_seed", 0))
     items, valueof, names, vmap = present(case["values"], case["pres"], prng)
-    kw = {"objective": A.objective(*case["objective"])}
+    kw = {"objective": A.objective(*case["objective"], case=case)}
     if case.get("copies") is not None:
         kw["copies"] = case["copies"]
         if case.get("copies_dict_order") is not None:
